@@ -352,6 +352,8 @@ def build(tier, seed):
                ['placement/objects/research_context.py:RequestWideSearchContext.exceeds_capacity'])
     chk.script('build_provider_summaries', script_summaries,
                ['placement/objects/allocation_candidate.py:_build_provider_summaries'])
+    chk.script('multi_group_rcs', script_multi_group,
+               ['placement/objects/allocation_candidate.py:AllocationCandidates._get_by_requests'])
     claim_lemmas(chk)
     chk.replayer('C02.', replay_c02)
     chk.fallback('B4.c02.claim_every_candidate', lambda: replay_c02(None),
@@ -360,6 +362,151 @@ def build(tier, seed):
     chk.assume('A-int', 'A-heap', 'A-lib', 'A-order', 'A-sql')
     return chk
 
+
+
+# --------------------------------------------------------------------------
+# _get_by_requests establishes consolidate's precondition: a class is in
+# multi_group_rcs iff more than one group requests it
+GQ = 'AllocationCandidates._get_by_requests'
+
+
+def _mg_ghost(I):
+    g = I.ghost
+    if 'mg.G' not in g:
+        g['mg.G'] = z3.Function('group_rcs', z3.IntSort(),
+                                z3.ArraySort(CC.StrSort, z3.BoolSort()))
+        g['mg.cnt'] = z3.Function(I.ex.fresh_name('cnt'), z3.IntSort(),
+                                  CC.StrSort, z3.IntSort())
+    return g['mg.G'], g['mg.cnt']
+
+
+def _mg_sets(I, frame):
+    rw = frame.locals['rw_ctx']
+    multi = I.read_field(rw, 'multi_group_rcs')
+    seen = frame.locals['seen_rcs']
+    if not isinstance(seen, SSet) or not isinstance(multi, SSet):
+        raise Undecided('seen_rcs / multi_group_rcs are %r / %r' % (seen, multi))
+    return seen, multi
+
+
+def mg_outer_lemmas(I, frame, i, seq):
+    """definition of cnt(i, x) = number of the first i groups requesting x"""
+    G, cnt = _mg_ghost(I)
+    x = z3.Const('x!mg', CC.StrSort)
+    I.ghost['mg.i'] = i
+    I.ghost['mg.seq'] = seq
+    grp = seq.element(I, i)
+    gref = grp[1].ref if isinstance(grp, tuple) else grp.ref
+    return [
+        ops.forall([x], cnt(0, x) == 0, patterns=[cnt(0, x)]),
+        ops.forall([x], cnt(i + 1, x) == cnt(i, x) +
+                   z3.If(z3.Select(G(gref), x), 1, 0),
+                   patterns=[cnt(i + 1, x)]),
+        ops.forall([x], cnt(i, x) >= 0, patterns=[cnt(i, x)]),
+    ]
+
+
+def mg_outer_inv(I, frame, i, seq):
+    G, cnt = _mg_ghost(I)
+    seen, multi = _mg_sets(I, frame)
+    x = z3.Const('x!mg', CC.StrSort)
+    return [
+        ops.forall([x], z3.Select(seen.arr, x) == (cnt(i, x) >= 1),
+                   patterns=[z3.Select(seen.arr, x)]),
+        ops.forall([x], z3.Select(multi.arr, x) == (cnt(i, x) >= 2),
+                   patterns=[z3.Select(multi.arr, x)]),
+    ]
+
+
+def mg_inner_entry(I, frame, seq):
+    seen, multi = _mg_sets(I, frame)
+    I.ghost['mg.seen0'] = seen.arr
+    I.ghost['mg.multi0'] = multi.arr
+
+
+def mg_inner_inv(I, frame, i, seq):
+    """within one group (its classes enumerated without repetition): seen
+    grows by the classes visited, multi by those already seen before"""
+    seen, multi = _mg_sets(I, frame)
+    s0, m0 = I.ghost['mg.seen0'], I.ghost['mg.multi0']
+    rcs = seq.origin
+    x = z3.Const('x!mgi', CC.StrSort)
+    visited = z3.And(z3.Select(rcs.arr, x), seq.idx(x) < i)
+    return [
+        ops.forall([x], z3.Select(seen.arr, x) ==
+                   z3.Or(z3.Select(s0, x), visited),
+                   patterns=[z3.Select(seen.arr, x)]),
+        ops.forall([x], z3.Select(multi.arr, x) ==
+                   z3.Or(z3.Select(m0, x), z3.And(visited, z3.Select(s0, x))),
+                   patterns=[z3.Select(multi.arr, x)]),
+    ]
+
+
+def script_multi_group(ex):
+    import C20
+    from pyvc.interp import LoopSpec
+    from placement import lib as plib
+    reg = C20.registry_gbr()
+    reg['fields'].update(CC.C02_FIELDS)
+    reg['fields'][('RequestGroupSearchContext', 'rcs')] = \
+        CC.FieldSpec(('set', 'str'))
+
+    def rw_ctor(I, a, k):
+        o = I.alloc(CC.RWSC)
+        I.write_field(o, '_limit', I.fresh('limit', 'int', True))
+        I.write_field(o, '_nested_aware', I.fresh('nested_aware', 'bool'))
+        I.write_field(o, 'has_trees', I.fresh('has_trees', 'bool'))
+        empty = SSet(z3.K(CC.StrSort, z3.BoolVal(False)), 'str', [], 'empty')
+        I.write_field(o, 'multi_group_rcs', empty)
+        I.ghost['rw'] = o
+        return o
+    reg['classes'][res_ctx.RequestWideSearchContext] = rw_ctor
+
+    def rg_ctor(I, a, k):
+        G, cnt = _mg_ghost(I)
+        group = a[1]
+        o = I.alloc(res_ctx.RequestGroupSearchContext)
+        I.write_field(o, 'rcs', SSet(G(group.ref), 'str', None, 'rcs'))
+        return o
+    reg['classes'][res_ctx.RequestGroupSearchContext] = rg_ctor
+    reg['loops'][(GQ, 1)] = LoopSpec(
+        invariant=mg_outer_inv, lemmas=mg_outer_lemmas, name='C02.multi.groups',
+        keep=('cls', 'context', 'groups', 'rqparams', 'nested_aware', 'rw_ctx',
+              'sharing'),
+        modifies_fields=(('RequestWideSearchContext', 'multi_group_rcs'),
+                         ('AllocationRequest', 'use_same_provider')))
+    reg['loops'][(GQ, 2)] = LoopSpec(
+        invariant=mg_inner_inv, on_entry=mg_inner_entry,
+        name='C02.multi.classes',
+        keep=('cls', 'context', 'groups', 'rqparams', 'nested_aware', 'rw_ctx',
+              'sharing', 'suffix', 'group', 'rg_ctx', 'candidates'),
+        modifies_fields=(('RequestWideSearchContext', 'multi_group_rcs'),))
+    reg['havoc_types'][(GQ, 'seen_rcs')] = ('set', 'str')
+    reg['havoc_types'][(GQ, 'candidates')] = \
+        ('map', 'str', ('list', ('obj', CC.AREQ)))
+    I = Interp(ex, reg)
+    ctx = lib.CtxStub()
+    I.ghost['ctx'] = ctx
+    groups = I.fresh_map('groups', 'str', ('obj', plib.RequestGroup))
+    rqparams = I.alloc(plib.RequestWideParams)
+    try:
+        I.call(ac.AllocationCandidates._get_by_requests.__func__,
+               [ac.AllocationCandidates, ctx, groups, rqparams], {})
+    except PyRaise as pr:
+        raise Undecided('_get_by_requests raised %s %r'
+                        % (pr.exc.cls.__name__, pr.exc.args))
+    if not I.events_of('merge'):
+        return          # a group without candidates: nothing is consolidated
+    G, cnt = _mg_ghost(I)
+    rw = I.ghost['rw']
+    multi = I.read_field(rw, 'multi_group_rcs')
+    seq = I.ghost.get('mg.seq')
+    if seq is None:
+        raise Undecided('the group loop was not reached')
+    x = z3.Const('x!mgpost', CC.StrSort)
+    ex.oblige('C02.T.multi_group_rcs_is_classes_of_more_than_one_group',
+              ops.forall([x], z3.Select(multi.arr, x) == (cnt(seq.len, x) >= 2),
+                         patterns=[z3.Select(multi.arr, x)]), 'T')
 
 if __name__ == '__main__':
     runner.main(build)
